@@ -11,7 +11,7 @@ from .core import run, BuildError, VERIF, REPO, RT, dflags
 
 BLOCKING = ['pthread_mutex_lock', '_ZNSt18condition_variable4waitERSt11unique_lockISt5mutexE', '_ZNSt6thread4joinEv']
 THREAD_ENTRY = r'_ZNSt6thread11_State_implI.*E6_M_runEv'
-IRFLAGS = ['-std=c++17', '-O1', '-fno-exceptions', '-fno-vectorize', '-fno-slp-vectorize', '-fno-unroll-loops', '-w', '-S', '-emit-llvm']
+IRFLAGS = ['-std=c++17', '-O1', '-fno-exceptions', '-I' + os.path.join(VERIF, 'harness'), '-fno-vectorize', '-fno-slp-vectorize', '-fno-unroll-loops', '-w', '-S', '-emit-llvm']
 CBMC = ['--unwinding-assertions', '--drop-unused-functions', '--object-bits', '12', '--no-standard-checks', '--trace', '--verbosity', '8']
 
 
@@ -54,7 +54,7 @@ def model_runs(rn, ob, mc, nseeds=60):
     d = rn.odir(ob)
     cbin = os.path.join(d, 'model_native')
     cd = dict(ob.cdefs); cd['VERIF_K'] = 64        # a concrete run may use more switches than the solver's bound
-    cmd = ['gcc', '-O1', '-w', '-I' + RT, '-DVERIF_ENTRY=verif_e2_entry'] + dflags(cd) + [mc, os.path.join(RT, 'stubs.c')] + \
+    cmd = ['gcc', '-O1', '-w', '-falign-functions=16', '-I' + RT, '-DVERIF_ENTRY=verif_e2_entry'] + dflags(cd) + [mc, os.path.join(RT, 'stubs.c')] + \
           [os.path.join(VERIF, 'harness', s) for s in ob.extra_c_files] + ['-lm', '-o', cbin]
     rc, so, se, w, _ = run(cmd, timeout=300)
     if rc != 0: return dict(status='build-failed', detail=se[-1500:])
@@ -125,7 +125,7 @@ def native_sched_bin(rn, ob):
     hd = dict(ob.libdefs); hd.update(ob.defs); hd['VERIF_ENTRY'] = ob.entry
     if ob.e2_setup: hd['VERIF_SETUP'] = ob.e2_setup
     srcs = [os.path.join(VERIF, 'harness', ob.harness), os.path.join(RT, 'native_sched.cpp')] + [os.path.join(REPO, t) for t in ob.tus]
-    cmd = ['g++', '-std=c++17', '-O1', '-g', '-w', '-fno-inline'] + core.INCLUDES + ['-D' + core.GUARD] + dflags(hd) + srcs + ['-o', out, '-lpthread', '-ldl']
+    cmd = ['g++', '-std=c++17', '-O1', '-g', '-w', '-fno-inline', '-I' + os.path.join(VERIF, 'harness')] + core.INCLUDES + ['-D' + core.GUARD] + dflags(hd) + srcs + ['-o', out, '-lpthread', '-ldl']
     rc, so, se, w, _ = run(cmd, timeout=600)
     if rc != 0: raise BuildError('native schedule-replay build failed:\n%s' % se[-2500:])
     return out
